@@ -25,6 +25,7 @@ func init() {
 			"R5": "next-BB scan shape, call-site arguments, store at settlement, reset at continue",
 			"R6": "seat publication pairing (no cross-wiring)",
 			"R7": "the dead dealer/SB label skip is not conditioned on the seat being occupied",
+			"R8": "label assignment pairing: the head of the remaining label list goes to the eligible player of the next seat counted from the seat manager's BB seat, found through an id→index map of the same player list",
 		},
 		Assumptions: []string{},
 		Run:         checkC06,
@@ -250,6 +251,67 @@ func checkC06(c *Ctx) {
 	}
 	c.Min("R7", "label-list advances in the position updater", nAdv, 2)
 	c.Min("R7", "dead-seat skips", nSkip, 1)
+
+	// ---------------- R8 label assignment pairing
+	nLab := 0
+	for _, ss := range p.Stores([]*ssa.Function{updater}) {
+		if ss.Owner != "TablePlayerState" || ss.Field != "Positions" {
+			continue
+		}
+		nLab++
+		where := p.InstrPos(ss.Instr)
+		pl := ss.Addr.Strip().Args[0].Strip() // players[idx]
+		d := ""
+		if pl.Kind != "index" || !symIsParam(pl.Args[0], updater.Params[2]) {
+			d = "labels are written to " + pl.String() + ", not to an element of the player list being labelled"
+		} else {
+			ix := pl.Args[1].Strip() // M[seatPlayer.ID]#0
+			if !(ix.Kind == "extract" && ix.Args[0].Strip().Kind == "lookup" && ix.Args[0].Strip().Args[1].Strip().IsField("SeatPlayer", "ID")) {
+				d = "the labelled player index " + ix.String() + " is not looked up by the seat player's id"
+			} else {
+				sp := ix.Args[0].Strip().Args[1].Strip().Args[0].Strip() // the seat player
+				// the seat player comes from the seat manager's seats at a position counted from the BB seat
+				okSeat := sp.Kind == "extract" && sp.Args[0].Strip().Kind == "lookup" && sp.Args[0].Strip().Args[0].IsCall("SeatManager.Seats")
+				if okSeat {
+					k := sp.Args[0].Strip().Args[1].Strip()
+					okSeat = k.Kind == "binop" && k.Name == "%" && k.Args[0].Strip().Kind == "ind" && k.Args[0].Strip().Ind.First.IsCall("SeatManager.CurrentBBSeatID")
+				}
+				if !okSeat {
+					d = "labels are not handed out seat by seat starting at the seat manager's big-blind seat"
+				}
+				// only active seats get a label
+				if d == "" && !guardedBy(p.Guards(ss.Instr), true, func(x *Sym) bool { return x.IsCall("SeatPlayer.Active") && x.Args[0].Strip().String() == sp.String() }) {
+					d = "a label is given to a seat whose player is not known to be eligible"
+				}
+				// the id→index map is built from the same player list
+				if d == "" {
+					if lk, isLk := ix.Args[0].Strip().V.(*ssa.Lookup); isLk {
+						okMap := false
+						if refs := lk.X.Referrers(); refs != nil {
+							for _, r := range *refs {
+								if mu, isMU := r.(*ssa.MapUpdate); isMU {
+									k, v := p.Sym(mu.Key).Strip(), p.Sym(mu.Value).Strip()
+									if k.IsField("TablePlayerState", "PlayerID") && k.Args[0].Strip().Kind == "index" && symIsParam(k.Args[0].Strip().Args[0], updater.Params[2]) && k.Args[0].Strip().Args[1].Strip().String() == v.String() {
+										okMap = true
+									}
+								}
+							}
+						}
+						if !okMap {
+							d = "the id → player index map used for labelling is not built from the player list being labelled"
+						}
+					}
+				}
+			}
+		}
+		// value: head of the remaining label list
+		v := ss.Val.Strip()
+		if d == "" && !(v.Kind == "index" && v.Args[1].Strip().Name == "0") {
+			d = "the label given is " + v.String() + ", not the head of the remaining label list"
+		}
+		c.Check(d == "", "R8", "label-assignment", where, "next label → the eligible player of the next seat from the BB", d)
+	}
+	c.Min("R8", "label assignments", nLab, 1)
 
 	// ---------------- R4
 	if lc.startFn != nil {
